@@ -8,6 +8,7 @@ import (
 	"math/big"
 	"os"
 	"strings"
+	"time"
 
 	"golang.org/x/tools/go/ssa"
 )
@@ -29,6 +30,8 @@ type State struct {
 	Notes []string
 	// SplitTag records explicit case splits (vChoose); states with different tags are never merged
 	SplitTag string
+	// Overrides are contract stubs installed by the harness on this path (vOverride)
+	Overrides map[string]Intrinsic
 }
 
 func (s *State) Fork() *State {
@@ -37,6 +40,12 @@ func (s *State) Fork() *State {
 	copy(n.PC, s.PC)
 	n.Notes = append([]string{}, s.Notes...)
 	n.SplitTag = s.SplitTag
+	if s.Overrides != nil {
+		n.Overrides = make(map[string]Intrinsic, len(s.Overrides))
+		for k, v := range s.Overrides {
+			n.Overrides[k] = v
+		}
+	}
 	return n
 }
 
@@ -129,6 +138,7 @@ type Exec struct {
 	Instrs      int
 	Paths       int
 	BranchQueries int
+	Lazy bool
 	ModelHits int
 	models []*Model
 	BranchSecs float64
@@ -341,8 +351,30 @@ func (e *Exec) truncDivRem(n, d *Term) (*Term, *Term) {
 	}
 	// symbolic divisor: fresh magnitude quotient qa>=0 and remainder ra with |n| = |d|*qa + ra, 0<=ra<|d|
 	zero := ts.Int64(0)
-	qa := ts.FreshBounded("q", new(big.Int), nil)
-	ra := ts.FreshBounded("r", new(big.Int), nil)
+	var qHi, rHi *big.Int
+	if n.Lo != nil && n.Hi != nil {
+		qHi = new(big.Int).Abs(n.Lo)
+		if h := new(big.Int).Abs(n.Hi); h.Cmp(qHi) > 0 {
+			qHi = h
+		}
+		// a divisor bounded away from zero tightens the quotient bound
+		if d.Lo != nil && d.Lo.Sign() > 0 {
+			qHi = new(big.Int).Quo(qHi, d.Lo)
+		} else if d.Hi != nil && d.Hi.Sign() < 0 {
+			qHi = new(big.Int).Quo(qHi, new(big.Int).Abs(d.Hi))
+		}
+	}
+	if d.Lo != nil && d.Hi != nil {
+		rHi = new(big.Int).Abs(d.Lo)
+		if h := new(big.Int).Abs(d.Hi); h.Cmp(rHi) > 0 {
+			rHi = h
+		}
+		if rHi.Sign() > 0 {
+			rHi = new(big.Int).Sub(rHi, big.NewInt(1))
+		}
+	}
+	qa := ts.FreshBounded("q", new(big.Int), qHi)
+	ra := ts.FreshBounded("r", new(big.Int), rHi)
 	absn := e.absTerm(n)
 	absd := e.absTerm(d)
 	def := ts.Implies(ts.Ne(d, zero), ts.And(
@@ -477,6 +509,11 @@ func (e *Exec) constValue(c *ssa.Const) Value {
 
 func (e *Exec) globalPtr(st *State, g *ssa.Global) Ptr {
 	if id, ok := e.globals[g]; ok {
+		if st.Heap.get(id) == nil {
+			// first touched on a sibling path after a fork: materialise the (still zero) global here under the same id
+			elem := g.Type().(*types.Pointer).Elem()
+			st.Heap.objs[id] = &Object{Root: e.zero(elem), Epoch: st.Heap.epoch, Typ: elem, Site: "global " + g.String()}
+		}
 		return Ptr{Obj: id}
 	}
 	elem := g.Type().(*types.Pointer).Elem()
@@ -578,7 +615,7 @@ func (e *Exec) callFn(st *State, fn *ssa.Function, args []Value, env []Value, de
 		e.logf("init %s", fn.Pkg.Pkg.Path())
 	}
 	// intrinsics
-	if intr := e.lookupIntrinsic(fn); intr != nil {
+	if intr := e.lookupIntrinsic(st, fn); intr != nil {
 		return e.runIntrinsic(intr, st, fn, args, depth)
 	}
 	if fn.Blocks == nil && fn.Pkg != nil {
@@ -590,6 +627,12 @@ func (e *Exec) callFn(st *State, fn *ssa.Function, args []Value, env []Value, de
 		return []Outcome{{Kind: OutError, St: st, Why: "no body for " + fn.String()}}
 	}
 	e.FuncsSeen[fn]++
+	if os.Getenv("GOSYM_CALLS") != "" && depth <= 4 {
+		t0 := time.Now()
+		defer func() {
+			fmt.Fprintf(os.Stderr, "%s %*scall %s -> %d outcomes (%.1fs, pc=%d)\n", time.Now().Format("15:04:05"), depth*2, "", fn.String(), len(outs), time.Since(t0).Seconds(), len(st.PC))
+		}()
+	}
 	f := &Frame{fn: fn, locals: make(map[ssa.Value]Value, 32), block: fn.Blocks[0], st: st, forks: map[ssa.Instruction]int{}, depth: depth, recoverable: recoverable}
 	if len(args) != len(fn.Params) {
 		return []Outcome{{Kind: OutError, St: st, Why: fmt.Sprintf("arity mismatch calling %s: %d vs %d", fn, len(args), len(fn.Params))}}
